@@ -53,6 +53,7 @@ let parse_op t : op6 =
     let ids = rep k (fun () -> num t) in
     Base (OpSelectChange (ids, a, e))
   | "build" -> Base OpBuild
+  | "xr" -> let id = num t in let size = num t in AuxXr (id, size)
   | "x" -> let tag = next t in let n = num t in Aux (n_of_int (match tag with "ref" -> 1 | "coll" -> 2 | _ -> 0), n)
   | x -> failwith ("syntax: op " ^ x)
 
@@ -71,6 +72,7 @@ let parse_case (l : string list) : scenario =
                              | _ -> let a = znum t in let b = znum t in let c = znum t in let d = znum t in Some (((a, b), c), d)) in
   let refp = (match peek t with Some "~" -> ignore (next t); None
                               | _ -> let a = znum t in let b = znum t in Some (a, b)) in
+  let dedup = (match peek t with Some "DD" -> ignore (next t); next t = "1" | _ -> false) in
   expect t "U";
   let n = cnt t in
   let us = rep n (fun () ->
@@ -84,7 +86,8 @@ let parse_case (l : string list) : scenario =
   let ops = rep n (fun () -> parse_op t) in
   { cfg = { c_pool_deposit = pool; c_key_deposit = key; c_prefer_pure_change = pure; c_do_not_burn_extra_change = noburn };
     sc = { sc_a = n_of_string sa; sc_b = n_of_string sb; sc_max_tx = maxtx; sc_ex_price = exp; sc_ref_price = refp;
-           sc_uinfo = List.map (fun (id, u, _) -> (id, u)) us; sc_obase = ob };
+           sc_uinfo = List.map (fun (id, u, _) -> (id, u)) us; sc_obase = ob; sc_dedup = dedup;
+           sc_xr_ids = List.concat (List.map (function AuxXr (id, _) -> [id] | _ -> []) ops) };
     utxos = List.map (fun (id, _, v) -> (id, v)) us; ops = ops;
     za = z_of_string sa; zb = z_of_string sb; pr = { p_ex = exp; p_ref = refp } }
 
@@ -183,7 +186,7 @@ let () = run_driver (fun toks impl_toks ->
       | o :: r, t :: r' -> (o, t) :: zip r r'
       | o :: r, [] -> (o, bad_rec) :: zip r []
       | [], _ -> [] in
-    let r0 = { r_st = new_state sc.cfg; r_ref = n_of_int 0; r_bal = None; r_coll = false; r_sdh = false } in
+    let r0 = { r_st = new_state sc.cfg; r_ref = (n_of_int 0, []); r_bal = None; r_coll = false; r_sdh = false } in
     let ((rs, r), checked) = run_ops6 sc.sc sc.utxos (zip sc.ops im.i_recs) r0 (n_of_int 0) in
     let st = r.r_st in
     let b = Buffer.create 512 in
